@@ -32,10 +32,24 @@ def setup():
     with open(d / "h.hap", "w") as f:
         f.write("H\t1\t10\t31\thapA\nH\t1\t20\t51\thapB\nH\t1\t40\t61\thapC\nH\t1\t10\t11\thapD\nH\t1\t20\t41\tblock 7\n")
         f.write("V\thapA\t10\t11\tsnpA\tC\nV\thapA\t30\t31\tsnpC\tA\nV\thapB\t20\t21\tsnpB\tC\nV\thapB\t50\t51\tsnpE\tC\nV\thapC\t40\t41\tsnpD\tA\nV\thapC\t60\t61\tsnpF\tC\nV\thapD\t10\t11\tsnpA\tA\nV\tblock 7\t20\t21\tsnpB\tA\nV\tblock 7\t40\t41\tsnpD\tC\n")
+    ls = open(d / "h.hap").read().splitlines()
+    hs_ = sorted([l.split("\t") for l in ls if l.startswith("H\t")], key=lambda f: (f[1], int(f[2]), int(f[3]), f[4]))
+    vs_ = sorted([l.split("\t") for l in ls if l.startswith("V\t")], key=lambda f: (f[1], int(f[2]), int(f[3])))
+    open(d / "hsorted.hap", "w").write("\n".join("\t".join(f) for f in hs_ + vs_) + "\n")
     with open(d / "hb.hap", "w") as f:  # with betas, for simphenotype
         f.write("#\torderH\tbeta\n#\tversion\t0.2.0\n#H\tbeta\t.2f\tEffect size\n")
         f.write("H\t1\t10\t31\thapA\t0.50\nH\t1\t20\t51\thapB\t-0.25\nH\t1\t40\t61\thapC\t0.10\n")
         f.write("V\thapA\t10\t11\tsnpA\tC\nV\thapA\t30\t31\tsnpC\tA\nV\thapB\t20\t21\tsnpB\tC\nV\thapB\t50\t51\tsnpE\tC\nV\thapC\t40\t41\tsnpD\tA\nV\thapC\t60\t61\tsnpF\tC\n")
+    # pseudo-genotypes of the three haplotypes of hb.hap (what `transform` writes: one variant per haplotype, 1 where a strand
+    # carries all of its alleles) – simphenotype's genotype input when the effects come from a .hap file
+    alle = {v[0]: v[3] for v in variants}
+    col = {v[0]: j for j, v in enumerate(variants)}
+    hb = {"hapA": [("snpA", "C"), ("snpC", "A")], "hapB": [("snpB", "C"), ("snpE", "C")], "hapC": [("snpD", "A"), ("snpF", "C")]}
+    pvars = [("hapA", "1", 10, ["A", "T"]), ("hapB", "1", 20, ["A", "T"]), ("hapC", "1", 40, ["A", "T"])]
+    pdata = [[tuple(int(all(alle[v][row[col[v]][k]] == a for v, a in hb[h[0]])) for k in (0, 1)) + (1,) for h in pvars] for row in data]
+    GF.write_vcf_text(d / "pg.vcf", samples, pvars, pdata)
+    GF.compress_index(d / "pg.vcf", d / "pg.vcf.gz")
+    GF.write_pgen(d / "pg", samples, pvars, pdata)
     with open(d / "unsorted.hap", "w") as f:  # not coordinate sorted: tabix refuses it with --no-sort
         f.write("H\t1\t40\t61\thapC\nH\t2\t10\t31\thapA\nH\t1\t20\t51\thapB\n")
         f.write("V\thapA\t10\t11\tsnpA\tC\nV\thapB\t20\t21\tsnpB\tC\nV\thapC\t40\t41\tsnpD\tA\n")
@@ -273,11 +287,14 @@ def impl(case):
         from haptools.sim_phenotype import simulate_pt
 
         common = ["--seed", "11", "-r" if sh else "--replications", "2", "-h" if sh else "--heritability", "0.5"]
+        gf = d / ("pg.pgen" if case["pgen"] else "pg.vcf.gz")  # the haplotypes' pseudo-genotypes
         kw = dict(genotypes=gf, haplotypes=d / "hb.hap", num_replications=2, heritability=0.5, samples=set(smp) if smp else None, haplotype_ids=set(ids) if ids else None, seed=11, **xkw)
         exp = ("haptools.sim_phenotype", "simulate_pt", dict(kw, output=o / "a.pheno"), {"log", "output"})
         res["cli_rep"] = run_cli(["simphenotype", *common, *xargs, *rep_ids, *rep_smp, "-o", o / "a.pheno", gf, d / "hb.hap"], exp)
         res["cli_file"] = run_cli(["simphenotype", *common, *xargs, *file_ids, *file_smp, "--output", o / "b.pheno", gf, d / "hb.hap"], exp)
-        res["api_error"] = C.guarded(lambda: simulate_pt(**kw, output=o / "c.pheno", log=SD.silent_log()))
+        with C.capture_logs() as cap:
+            res["api_error"] = C.guarded(lambda: simulate_pt(**kw, output=o / "c.pheno", log=cap.logger))
+        res["reported"] = any(l in ("WARNING", "ERROR", "CRITICAL") for l, _ in cap.records)
         res["out"] = [text(o / f) if (o / f).exists() else None for f in ("a.pheno", "b.pheno", "c.pheno")]
     elif k == "ld":
         from haptools.ld import calc_ld
@@ -296,14 +313,32 @@ def impl(case):
 
         from haptools.index import index_haps
 
-        src = "unsorted.hap" if case["failing"] else "h.hap"
         sort = case["sort"] and not case["failing"]
+        # --no-sort needs an input tabix accepts as it is: the same records in coordinate order (H lines, then V lines by haplotype)
+        src = "unsorted.hap" if case["failing"] else ("h.hap" if sort else "hsorted.hap")
         for tag in ("a", "c"):
             shutil.copy(d / src, o / f"{tag}.hap")
         res["cli_rep"] = run_cli(["index", "--sort" if sort else "--no-sort", "-o" if sh else "--output", o / "a.hap.gz", o / "a.hap"])
         res["cli_file"] = res["cli_rep"]
         res["api_error"] = C.guarded(lambda: index_haps(o / "c.hap", sort=sort, output=o / "c.hap.gz", log=SD.silent_log()))
         res["out"] = [gzip.open(o / f, "rt").read() if (o / f).exists() and (o / (f + ".tbi")).exists() else None for f in ("a.hap.gz", "a.hap.gz", "c.hap.gz")]
+        if not case["failing"]:
+            # no --output, and the input is a symbolic link (a file staged into a work directory): the default output belongs
+            # beside the name the user gave, for the command line as for the Python entry point
+            import os
+
+            files = {}
+            for tag in ("cli", "api"):
+                (o / tag / "store").mkdir(parents=True)
+                (o / tag / "work").mkdir()
+                shutil.copy(d / src, o / tag / "store" / "panel.hap")
+                os.symlink(o / tag / "store" / "panel.hap", o / tag / "work" / "panel.hap")
+                if tag == "cli":
+                    run_cli(["index", "--sort" if sort else "--no-sort", o / tag / "work" / "panel.hap"])
+                else:
+                    C.guarded(lambda: index_haps(o / tag / "work" / "panel.hap", sort=sort, log=SD.silent_log()))
+                files[tag] = sorted(str(p.relative_to(o / tag)) for p in (o / tag).rglob("*") if p.is_file() or p.is_symlink())
+            res["symlink_files"] = files
     elif k == "clump":
         from haptools.clump import clumpstr
 
@@ -389,10 +424,28 @@ def oracle(case, obs):
     for tag, r, out in (("repeated-option CLI", obs["cli_rep"], a), ("file-option CLI", obs["cli_file"], b)):
         if r["exit"] == 0 and (out is None or out is False):
             return f"{k}: the {tag} run produced no complete output (e.g. no index was built) but exited with status 0"
+    sf = obs.get("symlink_files")
+    if sf and sf["cli"] != sf["api"]:
+        return f"index without --output on a symbolic link: the command line leaves {sf['cli']}, the Python entry point {sf['api']}"
+    if sf and "work/panel.hap.gz" not in sf["cli"]:
+        return f"index without --output on work/panel.hap (a symbolic link) did not write work/panel.hap.gz: {sf['cli']}"
     if case.get("failing") and obs["cli_rep"]["exit"] == 0:
         return f"{k}: --no-sort on a file that is not coordinate sorted cannot be indexed, yet the command exited with status 0"
     if case.get("absent_sample") and obs["cli_rep"]["exit"] == 0:
         return f"{k}: a sample absent from the breakpoints file must be reported as an error (non-zero exit)"
+    if k == "simphenotype" and case["ids"] is not None:
+        # unknown IDs are reported and ignored: the phenotype is simulated from the known ones (the column is named after them)
+        known = [h for h in ("hapA", "hapB", "hapC") if h in case["ids"]]
+        unknown = [x for x in case["ids"] if x not in ("hapA", "hapB", "hapC")]
+        if known and unknown:
+            if api_failed:
+                return f"simphenotype with the IDs {case['ids']} fails ({obs['api_error']}) instead of reporting and ignoring the unknown ones {unknown}"
+            if not obs.get("reported"):
+                return f"simphenotype dropped the unknown IDs {unknown} without any report"
+        if known and not api_failed and a:
+            head = a.splitlines()[0].split("\t")[1]
+            if any(u in head for u in unknown) or not all(h in head for h in known):
+                return f"simphenotype names its phenotype {head!r} for requested IDs {case['ids']} (known: {known})"
     if api_failed:
         return None
     if a != c:
@@ -439,6 +492,9 @@ def oracle(case, obs):
 
 def describe(case, obs):
     tags = [case["kind"], "short-opts" if case["short"] else "long-opts"]
+    # how many cases exercise a run that succeeds (a comparison of two failures says little)
+    failed = isinstance(obs, dict) and isinstance(obs.get("api_error"), dict) and "error" in obs["api_error"]
+    tags.append(f"{case['kind']}:entry-point-{'fails' if failed else 'succeeds'}")
     if case["ids"]:
         tags.append("ids")
         if any(x.startswith("nosuchID") for x in case["ids"]):
@@ -498,6 +554,30 @@ CHECK = Check(
             teardown=c19b.teardown,
             nontrivial=lambda c, o: C.jdump(c),
             rule="random texts over an alphabet of name pieces, blanks, \\n, \\r\\n, \\r and every other separator of str.splitlines (VT, FF, FS, GS, RS, U+0085, U+2028, U+2029) written byte for byte to a file that is given as --ids-file and -S to ld / transform / simphenotype; the names the entry point receives (ld: in order of first mention) compared with the model's `readLines`; the model of str.splitlines used for the pre-fix witness is compared with Python's on the same texts",
+        ),
+        Section(
+            name="as_typed_in_a_shell",
+            theorems=["C19.samples_file_eq_repeated", "C19.empty_is_none"],
+            gen=c19b.gen_shell,
+            impl=c19b.impl_shell,
+            oracle=c19b.oracle_shell,
+            describe=lambda c, o: [c["cmd"], "stdout" if c["stdout"] else "relative -o", "cwd=" + c["cwd"], "pgen" if c["pgen"] else "vcf"],
+            setup=c19b.setup_shell,
+            teardown=c19b.teardown_shell,
+            nontrivial=lambda c, o: C.jdump(c),
+            rule="what the in-process sections keep constant: `python -m haptools transform / simphenotype / ld` as a process of its own, started in a working directory whose name holds a blank or in a subdirectory of it, every input path relative (../g.vcf.gz), no --output (the documented default: standard output) or a relative one with a blank; the text written (meta lines aside) must equal what the Python entry point writes for the same parameters, the exit status must be 0 exactly when the entry point succeeds",
+        ),
+        Section(
+            name="simgenotype_as_typed_in_a_shell",
+            theorems=["C19.empty_is_none"],
+            gen=c19b.gen_simgt_shell,
+            impl=lambda case: c19b.impl_simgt_shell(case, c19b._shell_dir),
+            oracle=c19b.oracle_simgt_shell,
+            describe=lambda c, o: ["out=" + c["out"], "pop_field" if c["pop"] else "no-pop_field", "sample_field" if c["sample"] else "no-sample_field"],
+            setup=c19b.setup_shell,
+            teardown=c19b.teardown_shell,
+            nontrivial=lambda c, o: C.jdump(c),
+            rule="the same for simgenotype: --out a bare name, an upper-case spelling, a compressed or BCF name with a blank, a nested and a dotted name in a working directory with a blank, inputs by relative path, with and without --pop_field / --sample_field; breakpoints, genotypes and annotations equal those of the Python entry points with the same seed",
         ),
     ],
     trusted=["click's type conversion of option values, its handling of --opt=value and clustered short options (not modelled) and its exit-code policy (usage errors exit with 2, exceptions with 1)"],
